@@ -7,7 +7,7 @@ identity there, so it cannot say what happens when the output object IS one of t
 (`x.add(x, y)`, `x.shift_left(x, 70)`, `x.negate(x)` …).  Here every C++ function is the exact SEQUENCE
 of word reads and word writes it performs on a store
 
-    Store = object id → word index → word
+    Store ≅ object id → word index → word
 
 and takes the object ids of `this` and of its operands as arguments; aliasing is expressed by passing the
 same id twice.  Loops are recursions that thread the store, one iteration per step, and inside an
@@ -31,14 +31,19 @@ import JediVerif.Impl.Limbs
 
 namespace Jedi.Impl.Mem
 
-/-- The store: object id ↦ word index ↦ word. -/
-abbrev Store := Nat → Nat → Nat
+/-- The store: object id ↦ word index ↦ word.  (A structure rather than a bare function type, so that a compiled
+function returning a store returns a VALUE: a definition whose result type is a function type is compiled with the
+extra arguments, and every later read would re-run the whole computation.) -/
+structure Store where
+  get : Nat → Nat → Nat
+
+instance : CoeFun Store (fun _ => Nat → Nat → Nat) := ⟨Store.get⟩
 
 /-- read word `i` of object `o` -/
 abbrev rd (s : Store) (o i : Nat) : Nat := s o i
 
 /-- write word `i` of object `o` -/
-def wr (s : Store) (o i v : Nat) : Store := fun o' j => if o' = o ∧ j = i then v else s o' j
+def wr (s : Store) (o i v : Nat) : Store := ⟨fun o' j => if o' = o ∧ j = i then v else s o' j⟩
 
 /-- words `i … i+k-1` of object `o` -/
 def slice (s : Store) (o : Nat) : Nat → Nat → List Nat
@@ -49,10 +54,10 @@ def slice (s : Store) (o : Nat) : Nat → Nat → List Nat
 def obj (s : Store) (o n : Nat) : List Nat := slice s o 0 n
 
 /-- initialise object `o` with the words `xs` (zero beyond) -/
-def put (s : Store) (o : Nat) (xs : List Nat) : Store := fun o' j => if o' = o then xs.getD j 0 else s o' j
+def put (s : Store) (o : Nat) (xs : List Nat) : Store := ⟨fun o' j => if o' = o then xs.getD j 0 else s o' j⟩
 
 /-- a store in which every word of every object is `g` (uninitialised memory) -/
-def fill (g : Nat) : Store := fun _ _ => g
+def fill (g : Nat) : Store := ⟨fun _ _ => g⟩
 
 /-! ### `BigInt` -/
 
@@ -78,13 +83,13 @@ def cmp (n a b : Nat) (s : Store) : Int := cmpFrom a 0 b n s
 /-- `BigInt::copy` of an equally wide operand: `memmove` (all bytes are read before any is written).
 `aoff`: see `cmpFrom`. -/
 def copyO (n res a aoff : Nat) (s : Store) : Store :=
-  fun o j => if o = res ∧ j < n then s a (aoff + j) else s o j
+  ⟨fun o j => if o = res ∧ j < n then s a (aoff + j) else s o j⟩
 
 def copy (n res a : Nat) (s : Store) : Store := copyO n res a 0 s
 
 /-- `BigInt<2·bits>::copy(const BigInt<bits>&)`: `memmove` of the `n` low words, `memset` of the `n` high ones. -/
 def copyExt (n res a : Nat) (s : Store) : Store :=
-  fun o j => if o = res ∧ j < n then s a j else if o = res ∧ j < 2 * n then 0 else s o j
+  ⟨fun o j => if o = res ∧ j < n then s a j else if o = res ∧ j < 2 * n then 0 else s o j⟩
 
 /-- Loop of `BigInt::add`, iterations `i … i+k-1`, carry `c`:
 `this[i] = a[i] + b[i] + carry;  carry = (this[i] < b[i])` resp. `(this[i] <= b[i])` — the stored word and
